@@ -100,6 +100,9 @@ func TestE2E(t *testing.T) {
 		cases = append(cases, c.Encode())
 		var ops []opInfo
 		ro := ropts
+		// every other history runs with a debug-level logger (into io.Discard): the attribute values of the log records
+		// are computed then, which they are not at the default level
+		ro.debug = i%2 == 1
 		if os.Getenv("VERIF_FAULTS") != "" {
 			ro.ops = &ops
 		}
